@@ -35,16 +35,17 @@ type genSpecJSON struct {
 	Big    bool            `json:"big_endian"`
 	Desc   string          `json:"desc"`
 	Stale  bool            `json:"stale_output_fields,omitempty"`
+	Failed int             `json:"after_failed_encodes,omitempty"`
 }
 
 func (g genSpec) json() genSpecJSON {
-	return genSpecJSON{g.Slot.FT, g.Slot.Common, g.Slot.Slot.Name, g.Slot.Mesg, g.Msgs, g.HdrCRC, g.Big, g.Desc, g.Stale}
+	return genSpecJSON{g.Slot.FT, g.Slot.Common, g.Slot.Slot.Name, g.Slot.Mesg, g.Msgs, g.HdrCRC, g.Big, g.Desc, g.Stale, g.AfterFailed}
 }
 
 func specFromJSON(j genSpecJSON) (genSpec, bool) {
 	for _, gs := range genSlots() {
 		if gs.FT == j.FT && gs.Common == j.Common && gs.Slot.Name == j.Member && gs.Mesg == j.Mesg {
-			return genSpec{Slot: gs, Msgs: j.Msgs, HdrCRC: j.HdrCRC, Big: j.Big, Desc: j.Desc, Stale: j.Stale}, true
+			return genSpec{Slot: gs, Msgs: j.Msgs, HdrCRC: j.HdrCRC, Big: j.Big, Desc: j.Desc, Stale: j.Stale, AfterFailed: j.Failed}, true
 		}
 	}
 	return genSpec{}, false
@@ -57,6 +58,7 @@ func init() {
 		Rule: "Files built through NewHeader/NewFile/constructors: 17 file types x every container member (plus file_id / file_creator / timestamp_correlation) x {no field, each single field x each boundary value, all fields (two value sets), two messages with disjoint halves (union definition), three-message mixes} x byte order x header with/without CRC; every fifth File is encoded right after two Encode calls that fail part-way; Files with every member populated at once (4 variants of empty / one-field messages). " +
 			"Oracle: strict independent grammar parser (header size/type/data size, header and trailing CRC, every data record defined earlier, sizes multiples of base size, unique field numbers, exact end of data), every definition field listed in the profile with that base type and the profile's size, wire bytes = reference encoding of the Go values put in (arrays padded with invalid, strings NUL padded, times in seconds, local times as wall-clock seconds, semicircles), every set field present; File.Header.DataSize / Header.CRC / CRC equal to what was written. distinct = distinct encoded outputs",
 		Run: runC05,
+		Sub: func(args []string) { tzSub(args) },
 		Replay: func(raw json.RawMessage) (string, error) {
 			var r c05Replay
 			json.Unmarshal(raw, &r)
@@ -95,6 +97,36 @@ func c05Check(g genSpec) ([]byte, string, string) {
 // c05EncodeAndValidate encodes f and validates the bytes against the grammar, the profile and the reference
 // encoding of the messages in exp (per message number, in File order; file_id is added here).
 func c05EncodeAndValidate(f *fit.File, exp map[uint16][]reflect.Value, big, hdrCRC bool) ([]byte, string, string) {
+	// the values "in the File" are the ones it holds when Encode is called: a deep snapshot, so that an Encode
+	// that writes into the caller's messages cannot make the comparison below agree with itself
+	type preT struct {
+		inv  bool
+		want []byte
+		dump string
+	}
+	prP := prof()
+	all := map[uint16][]reflect.Value{0: {reflect.ValueOf(f.FileId)}}
+	for m, ms := range exp {
+		all[m] = append(all[m], ms...)
+	}
+	pre := map[uint16][][]preT{}
+	for m, ms := range all {
+		for _, mv := range ms {
+			var row []preT
+			for _, e := range prP.byMesg[m] {
+				fv := mv.Field(e.Sindex)
+				isInv := invalidValueOK(fv, e)
+				var want []byte
+				if isInv && fv.Kind() == reflect.Slice {
+					want = wireOf(reflect.MakeSlice(fv.Type(), 0, 0), e, big)
+				} else {
+					want = wireOf(fv, e, big)
+				}
+				row = append(row, preT{isInv, append([]byte{}, want...), fitmodel.Dump(fv)})
+			}
+			pre[m] = append(pre[m], row)
+		}
+	}
 	out, eerr, pn := safeEncode(f, big)
 	if pn != "" {
 		return out, "Encode panics: " + pn, "encode-panic"
@@ -159,10 +191,6 @@ func c05EncodeAndValidate(f *fit.File, exp map[uint16][]reflect.Value, big, hdrC
 			return out, "compressed timestamp header emitted", "record"
 		}
 	}
-	all := map[uint16][]reflect.Value{0: {reflect.ValueOf(f.FileId)}}
-	for m, ms := range exp {
-		all[m] = append(all[m], ms...)
-	}
 	total := 0
 	for m, ms := range all {
 		total += len(ms)
@@ -170,26 +198,20 @@ func c05EncodeAndValidate(f *fit.File, exp map[uint16][]reflect.Value, big, hdrC
 		if len(recs) != len(ms) {
 			return out, fmt.Sprintf("message %d: %d data records written, File holds %d", m, len(recs), len(ms)), "record-count"
 		}
-		for i, mv := range ms {
+		for i := range ms {
 			r := recs[i]
-			for _, e := range pr.byMesg[m] {
-				fv := mv.Field(e.Sindex)
+			for j, e := range pr.byMesg[m] {
+				// the values the File held when Encode was called (computed before the call)
+				pv := pre[m][i][j]
 				wire, present := r.Fields[e.Num]
-				isInv := invalidValueOK(fv, e)
 				if !present {
-					if !isInv {
-						return out, fmt.Sprintf("message %d #%d: field %d is set in the File (%s) but absent from the definition", m, i, e.Num, fitmodel.Dump(fv)), "value-missing"
+					if !pv.inv {
+						return out, fmt.Sprintf("message %d #%d: field %d is set in the File (%s) but absent from the definition", m, i, e.Num, pv.dump), "value-missing"
 					}
 					continue
 				}
-				var want []byte
-				if isInv && fv.Kind() == reflect.Slice {
-					want = wireOf(reflect.MakeSlice(fv.Type(), 0, 0), e, big)
-				} else {
-					want = wireOf(fv, e, big)
-				}
-				if !bytes.Equal(wire, want) {
-					return out, fmt.Sprintf("message %d #%d field %d: wire bytes %x, reference encoding of %s is %x", m, i, e.Num, wire, fitmodel.Dump(fv), want), "value"
+				if !bytes.Equal(wire, pv.want) {
+					return out, fmt.Sprintf("message %d #%d field %d: wire bytes %x, reference encoding of %s is %x", m, i, e.Num, wire, pv.dump, pv.want), "value"
 				}
 			}
 		}
@@ -270,6 +292,7 @@ func multiFile(ft byte, variant int, hdrCRC bool) (*fit.File, map[uint16][]refle
 }
 
 func runC05(w *vx.W) {
+	procsFamily(w, "C05", "encode")
 	thorough := !w.Quick()
 	var k int64
 	for _, gs := range genSlots() {
@@ -281,10 +304,8 @@ func runC05(w *vx.W) {
 			if k%5 == 0 {
 				// an Encode that fails part-way (last message not encodable / writer fault) right before:
 				// nothing of it may leak into the next output
-				safeEncode(failingFile(), k%2 == 0)
-				var err error
-				guard(func() { err = fit.Encode(&failWriter{failAt: 2}, apiFile(1), binary.LittleEndian) })
-				_ = err
+				g.AfterFailed = 1 + int(k/5)%3
+				g.Desc += ", after two failed Encode calls"
 				w.Fam("after-a-failed-encode", 1)
 			}
 			if k%3 == 0 {
@@ -391,6 +412,7 @@ func runC05(w *vx.W) {
 		}
 	}
 	c05WriterKindsFamily(w, &k)
+	c05SharedBuffers(w, &k)
 	// strings that are not valid UTF-8: Encode may refuse them, but whatever it writes without an error must still be a
 	// well-formed stream whose definitions match its records
 	for _, gs := range genSlots() {
@@ -469,6 +491,92 @@ func runC05(w *vx.W) {
 
 type plainWriter struct {
 	chunks [][]byte
+}
+
+// c05SharedBuffers: array fields of consecutive messages that are sub-slices of one backing array with spare capacity
+// (how a caller fills them from one sample buffer): the wire must carry each message's own elements.
+func c05SharedBuffers(w *vx.W, k *int64) {
+	pr := prof()
+	for _, t := range fileTypes {
+		for _, sl := range hosts()[byte(t.Type)] {
+			if !sl.IsSlice {
+				continue
+			}
+			for _, e := range pr.byMesg[sl.Mesg] {
+				if !e.Array || e.Base == fitmodel.String || e.Length < 1 {
+					continue
+				}
+				L := int(e.Length)
+				for _, n := range [][2]int{{1, 2}, {L - 1, L}, {L, L}, {2, 1}} {
+					for c := 0; c < 2; c++ {
+						*k++
+						if !w.Mine(*k) {
+							continue
+						}
+						n0, n1 := n[0], n[1]
+						if n0 < 1 || n0 > L || n1 > L {
+							continue
+						}
+						f, err := fit.NewFile(t.Type, fit.NewHeader(fit.V20, true))
+						if err != nil {
+							continue
+						}
+						fid := fit.VerifNewMesg(0)
+						fid.FieldByName("Type").SetUint(uint64(t.Type))
+						f.FileId = fid.Interface().(fit.FileIdMsg)
+						cont := container(f)
+						fv := cont.Elem().Field(sl.Index)
+						var buf reflect.Value
+						exp := map[uint16][]reflect.Value{}
+						lens := []int{n0, n1, 1}
+						at := 0
+						ok := true
+						for i, ln := range lens {
+							mv := fit.VerifNewMesg(fit.MesgNum(sl.Mesg))
+							fld := mv.Field(e.Sindex)
+							if fld.Kind() != reflect.Slice {
+								ok = false
+								break
+							}
+							if i == 0 {
+								buf = reflect.MakeSlice(fld.Type(), 3*L+1, 4*L+8)
+								for j := 0; j < buf.Len(); j++ {
+									el := buf.Index(j)
+									switch el.Kind() {
+									case reflect.Uint8, reflect.Uint16, reflect.Uint32, reflect.Uint64:
+										el.SetUint(uint64(j%100 + 1))
+									case reflect.Int8, reflect.Int16, reflect.Int32, reflect.Int64:
+										el.SetInt(int64(j%100 + 1))
+									case reflect.Float32, reflect.Float64:
+										el.SetFloat(float64(j%100 + 1))
+									default:
+										ok = false
+									}
+								}
+							}
+							if !ok {
+								break
+							}
+							fld.Set(buf.Slice(at, at+ln))
+							at += ln
+							fv.Set(reflect.Append(fv, mv.Addr()))
+							exp[sl.Mesg] = append(exp[sl.Mesg], mv)
+						}
+						if !ok {
+							continue
+						}
+						out, msg, class := c05EncodeAndValidate(f, exp, c == 1, true)
+						w.Eval(1)
+						w.Fam("array-fields-sharing-one-buffer", 1)
+						w.Distinct(vx.HashB(out))
+						if msg != "" {
+							w.Violation("shared-buffer/"+class, fmt.Sprintf("%s file, three %v messages whose field %d holds %d, %d and 1 consecutive elements of one backing array, big=%v: %s", t.Name, fit.MesgNum(sl.Mesg), e.Num, n0, n1, c == 1, msg), map[string]interface{}{"file_type": t.Type, "mesg": sl.Mesg, "field": e.Num, "lens": lens, "encoded_hex": vx.Hex(out)})
+						}
+					}
+				}
+			}
+		}
+	}
 }
 
 func (p *plainWriter) Write(b []byte) (int, error) {
